@@ -105,7 +105,7 @@ theorem variants_sum (g : Rec → Nat) (hs : ∀ r s, g { r with sfx := s } = g 
   simp [hl, Nat.add_mul]
 
 theorem cw_variantClone (f : Fn) (c : Rec) (k : Nat) : cw (variantClone f c k) = cw c := by
-  simp [cw, variantClone]
+  by_cases h : c.wrap.c = true <;> simp [cw, hasClone, variantClone, h]
 theorem cw_variantLast (f : Fn) (c : Rec) : cw (variantLast f c) = cw c := by
   unfold variantLast; split <;> rfl
 theorem fw_variantClone (f : Fn) (c : Rec) (k : Nat) : fw (variantClone f c k) = fw c := by
@@ -189,13 +189,13 @@ theorem stage1Fn_sum_cw (sc : Scope) (f : Fn) (hc : (f.w0 sc).c = true) (hf : (f
     ((stage1Fn sc f).map cw).sum = cCount f := by
   unfold cCount
   apply stage1Fn_sum sc f cw _ (by intro r s; rfl) cw_variantClone cw_variantLast
-  · intro r h; simp [cw, h]
-  · intro k; simp [cw, defaultClone, Fn.base, hc, hf]
-  · simp [cw, original_wrap, original_hasBuf, hc, hf]
-  · simp [cw, usesTClone, Fn.base, hc, hf]
+  · intro r h; simp [cw, hasClone, h]
+  · intro k; by_cases hb : f.hasBuf = true <;> simp [cw, hasClone, defaultClone, Fn.base, hc, hf, hb]
+  · by_cases hb : f.hasBuf = true <;> simp [cw, hasClone, original_wrap, original_hasBuf, hc, hf, hb]
+  · by_cases hb : f.hasBuf = true <;> simp [cw, hasClone, usesTClone, Fn.base, hc, hf, hb]
   · intro c hcm
     obtain ⟨h1, h2, _⟩ := templateClones_fields _ _ _ _ c hcm
-    simp [cw, h1, h2, hc, hf, Fn.base]
+    by_cases hb : f.hasBuf = true <;> simp [cw, hasClone, h1, h2, hc, hf, Fn.base, hb]
 
 theorem stage1Fn_sum_fw (sc : Scope) (f : Fn) (hf : (f.w0 sc).f = true) :
     ((stage1Fn sc f).map fw).sum = fCount f := by
@@ -341,9 +341,14 @@ theorem distinct_underscore_forms_insufficient :
 
 /-! ### the whole pipeline: `_bufferify` clones and `fortran_generic` clones -/
 
-/-- Suffix extensions of the C entry points of a record: itself and, when a bufferify variant
-    is made, `_bufferify`. -/
-def cExt (r : Rec) : List Str := [] :: (if r.wrap.f && r.hasBuf then [bufSuffix] else [])
+/-- Suffix extensions of the C entry points of a record: itself when it has a C wrapper and,
+    when a clone for Fortran is made, that clone's suffix (`_bufferify`, or `_CFI` with `F_CFI`). -/
+def cExt (r : Rec) : List Str :=
+  (if r.wrap.c then [[]] else []) ++ (if hasClone r then [cloneSuffix r] else [])
+
+/-- Records that can contribute a C entry point: C-wrapped, or Fortran-wrapped (the CFI clone is
+    a C function made for the Fortran wrapper alone). -/
+def cVis (w : Wrap) : Bool := w.c || w.f
 
 /-- Suffix extensions of the Fortran specifics of a record: itself, or one per
     `fortran_generic` entry. -/
@@ -351,7 +356,7 @@ def fExt (r : Rec) : List Str := if r.generics.isEmpty then [[]] else r.generics
 
 theorem expand_c_names_eq (sc : Scope) (fs : List Fn) :
     ((expand sc fs).filter (fun r => r.wrap.c)).map (cName sc)
-      = ((core sc fs).filter (fun r => r.wrap.c)).flatMap
+      = ((core sc fs).filter (fun r => cVis r.wrap)).flatMap
           (fun r => (cExt r).map (nameExt (sc.cPrefix ++ sc.cScope) r)) := by
   have one : ∀ r : Rec, ((genericRec r).filter (fun x => x.wrap.c)).map (cName sc)
       = ([r].filter (fun x => x.wrap.c)).map (cName sc) := by
@@ -371,11 +376,12 @@ theorem expand_c_names_eq (sc : Scope) (fs : List Fn) :
       rw [List.flatMap_cons, List.filter_append, List.map_append, ih, one r, e2, List.filter_append,
         List.map_append]
   have cB : ∀ r : Rec, ((bufferifyRec r).filter (fun x => x.wrap.c)).map (cName sc)
-      = ([r].filter (fun x => x.wrap.c)).flatMap
+      = ([r].filter (fun x => cVis x.wrap)).flatMap
           (fun r => (cExt r).map (nameExt (sc.cPrefix ++ sc.cScope) r)) := by
     intro r
     by_cases hc : r.wrap.c = true <;> by_cases hf : r.wrap.f = true <;> by_cases hb : r.hasBuf = true <;>
-      simp [bufferifyRec, cExt, nameExt, c_name_predictable, hc, hf, hb, List.filter_cons]
+      by_cases hk : r.cfi = true <;>
+      simp [bufferifyRec, hasClone, cVis, cExt, nameExt, c_name_predictable, hc, hf, hb, hk, List.filter_cons]
   unfold expand
   rw [cA]
   generalize core sc fs = N
@@ -434,6 +440,18 @@ theorem expand_f_names_eq (sc : Scope) (fs : List Fn) :
 
 theorem cExt_renumber (s i : Nat) (r : Rec) : cExt (renumber s i r) = cExt r := by
   simp [cExt]
+
+theorem cExt_mem {r : Rec} {e : Str} (he : e ∈ cExt r) :
+    e = [] ∨ (hasClone r = true ∧ e = cloneSuffix r) := by
+  unfold cExt at he
+  rw [List.mem_append] at he
+  rcases he with he | he
+  · split at he
+    · simp at he; exact Or.inl he
+    · simp at he
+  · split at he
+    · rename_i hk; simp at he; exact Or.inr ⟨hk, he⟩
+    · simp at he
 theorem fExt_renumber (s i : Nat) (r : Rec) : fExt (renumber s i r) = fExt r := by
   simp [fExt]
 
@@ -442,27 +460,24 @@ theorem fExt_renumber (s i : Nat) (r : Rec) : fExt (renumber s i r) = fExt r := 
     pairwise distinct, provided additionally that explicit suffixes are single `_token`s and
     templated functions have no bufferify variant. -/
 theorem expand_c_names_distinct (sc : Scope) (fs : List Fn)
-    (ok : CoreOK (fun w => w.c) (stage1 sc fs))
+    (ok : CoreOK cVis (stage1 sc fs))
     (tok : ∀ r ∈ stage1 sc fs, eligible r = true → r.sfxLocal = true → isTok r.sfx = true)
     (tb : ∀ r ∈ stage1 sc fs, eligible r = false → r.hasBuf = false) :
     (((expand sc fs).filter (fun r => r.wrap.c)).map (cName sc)).Nodup := by
   rw [expand_c_names_eq]
-  refine number_ext_names_nodup (vis := fun w => w.c) cExt_renumber _ _ ok ⟨?_, ?_, ?_, tok⟩
+  refine number_ext_names_nodup (vis := cVis) cExt_renumber _ _ ok ⟨?_, ?_, ?_, tok⟩
   · intro r _ e he
-    unfold cExt at he
-    split at he
-    · simp at he; rcases he with rfl | rfl
-      · rfl
-      · exact bufSuffix_extLike
-    · simp at he; subst he; rfl
+    rcases cExt_mem he with rfl | ⟨_, rfl⟩
+    · rfl
+    · exact cloneSuffix_extLike r
   · intro r _
     unfold cExt
-    split
-    · have : ([] : Str) ≠ bufSuffix := by decide
-      simp [this]
-    · simp
+    have := cloneSuffix_ne_nil r
+    by_cases hc : r.wrap.c = true <;> by_cases hk : hasClone r = true <;> simp [hc, hk, this]
   · intro r hr ht e he
-    simpa [cExt, tb r hr ht] using he
+    rcases cExt_mem he with rfl | ⟨hk, _⟩
+    · rfl
+    · simp [hasClone, tb r hr ht] at hk
 
 /-- Hypotheses of the Fortran distinctness theorems, on the entry points of `stage1`. -/
 structure FortranOK (l : List Rec) : Prop where
@@ -566,7 +581,7 @@ def exFns2 : List Fn :=
   exFns ++ [{ exFn "str" 2 1 none with hasBuf := true },
             { exFn "gen" 1 0 none with generics := [none, some "_dbl".toList] }]
 
-example : CoreOK (fun w => w.c) (stage1 exScope exFns2) := by constructor <;> decide +kernel
+example : CoreOK cVis (stage1 exScope exFns2) := by constructor <;> decide +kernel
 example : CoreOK (fun w => w.f) (stage1 exScope exFns2) := by constructor <;> decide +kernel
 example : ∀ r ∈ stage1 exScope exFns2, eligible r = true → r.sfxLocal = true → isTok r.sfx = true := by
   decide +kernel
@@ -586,6 +601,41 @@ example : (((expand exScope (exFns ++ [{ exFn "str" 2 1 none with hasBuf := true
        "NM_outer_tmpl_int", "NM_outer_tmpl_double", "NM_outer_get",
        "NM_outer_str_0", "NM_outer_str_0_bufferify", "NM_outer_str_1", "NM_outer_str_1_bufferify",
        "NM_outer_gen"].map String.toList := by
+  decide +kernel
+
+/-- **clone names.**  The clone a record gets for Fortran (`arg_to_buffer`, or `arg_to_CFI` with
+    option `F_CFI`) never keeps the C name of the record it is cloned from: its name is evaluated
+    from the template after `function_suffix` was extended by `C_bufferify_suffix` /
+    `C_cfi_suffix`. -/
+theorem clone_name_ne_parent (sc : Scope) (r c : Rec) (hc : c ∈ bufferifyRec r) (hne : c ≠ r) :
+    cName sc c ≠ cName sc r ∧ cName sc c
+      = sc.cPrefix ++ sc.cScope ++ unCamel r.name ++ (r.sfx ++ cloneSuffix r) ++ r.tsfx := by
+  unfold bufferifyRec at hc
+  split at hc
+  · simp only [List.mem_cons, List.not_mem_nil, or_false] at hc
+    rcases hc with rfl | rfl
+    · exact absurd rfl hne
+    · refine ⟨?_, by rw [c_name_predictable]⟩
+      rw [c_name_predictable, c_name_predictable]
+      intro h
+      have h := congrArg List.length h
+      have hpos : (cloneSuffix r).length > 0 := by unfold cloneSuffix; split <;> decide
+      simp only [List.length_append] at h
+      omega
+  · simp at hc; exact absurd hc hne
+
+/-- The F_CFI shapes: a single function, an overload set and default-argument variants with a
+    string argument each give the C wrapper and its `_CFI` clone, a function without its own C
+    wrapper still gives the clone. -/
+example : (((expand exScope [{ exFn "measure" 1 0 none with hasBuf := true, cfi := true },
+      { exFn "rename" 1 0 none with hasBuf := true, cfi := true },
+      { exFn "rename" 2 1 none with hasBuf := true, cfi := true },
+      { exFn "only" 1 0 none with hasBuf := true, cfi := true, wrapOpt := some ⟨false, true, false, false⟩ },
+      { exFn "keep" 1 0 none with hasBuf := true }]).filter
+        (fun r => r.wrap.c)).map (cName exScope))
+    = ["NM_outer_measure", "NM_outer_measure_CFI", "NM_outer_rename_0", "NM_outer_rename_0_CFI",
+       "NM_outer_rename_1", "NM_outer_rename_1_CFI", "NM_outer_rename_2", "NM_outer_rename_2_CFI",
+       "NM_outer_only_CFI", "NM_outer_keep", "NM_outer_keep_bufferify"].map String.toList := by
   decide +kernel
 
 /-! ### across scopes -/
@@ -733,7 +783,7 @@ theorem program_c_names_distinct (P : List (Scope × List Fn))
 
 /-- Library-level statement in terms of the per-scope hypotheses. -/
 theorem program_c_names_distinct' (P : List (Scope × List Fn))
-    (ok : ∀ p ∈ P, CoreOK (fun w => w.c) (stage1 p.1 p.2)
+    (ok : ∀ p ∈ P, CoreOK cVis (stage1 p.1 p.2)
       ∧ (∀ r ∈ stage1 p.1 p.2, eligible r = true → r.sfxLocal = true → isTok r.sfx = true)
       ∧ (∀ r ∈ stage1 p.1 p.2, eligible r = false → r.hasBuf = false))
     (sep : ScopesSep P) : (P.flatMap cNamesOf).Nodup :=
